@@ -1,5 +1,6 @@
 mod alloc;
 mod c08;
+mod c12;
 mod c14;
 mod c15;
 mod c17;
@@ -288,6 +289,17 @@ fn run(cmd: &str, args: &[String], seed: u64, rep: &mut Report) {
             let mut trace = Vec::new();
             idrules::replay(&read_ndjson(arg(&args, "--in").unwrap()), seed, arg_u64(&args, "--reps", 2) as usize, &mut rep, &mut trace);
             write_ndjson(arg(&args, "--out-trace").unwrap(), &trace);
+        }
+        "real-sockets" => {
+            let ctx = fuzz::Ctx {
+                v: valve::Ctx {
+                    layouts: layout::LayoutSet::load(arg(&args, "--layouts").unwrap()),
+                    templates: template::Templates::load(arg(&args, "--templates").unwrap()),
+                    drift: drift_ids(),
+                },
+                mutations: vec![],
+            };
+            c12::replay(&ctx, &read_ndjson(arg(&args, "--in").unwrap()), seed, &mut rep);
         }
         "settings-real" => settings::real_sockets(&mut rep),
         "master" => master::replay(&read_ndjson(arg(&args, "--in").unwrap()), seed, arg_u64(&args, "--reps", 1) as usize, &mut rep),
